@@ -764,6 +764,55 @@ pub(crate) const fn is_leap_year(year: i32) -> bool {
     year % 400 == 0 || (year % 4 == 0 && year % 100 != 0)
 }
 
+/// Verification hooks (read-only, compiled only with `--cfg chrono_verif`): the calendar kernels of
+/// the rule evaluator, re-exported through `tz_info::verif`.
+#[cfg(chrono_verif)]
+#[allow(unreachable_pub, missing_docs)]
+pub mod verif_rule {
+    use super::RuleDay;
+
+    pub fn days_since_unix_epoch(year: i32, month: usize, month_day: i64) -> i64 {
+        super::days_since_unix_epoch(year, month, month_day)
+    }
+
+    /// `kind`: 0 = `Jn` (1..=365, no leap day), 1 = `n` (0..=365), 2 = `Mm.w.d` (`a` = month).
+    fn rule_day(kind: u8, a: u16, week: u8, week_day: u8) -> Option<RuleDay> {
+        match kind {
+            0 => RuleDay::julian_1(a).ok(),
+            1 => RuleDay::julian_0(a).ok(),
+            _ => RuleDay::month_weekday(a as u8, week, week_day).ok(),
+        }
+    }
+
+    /// `UtcDateTime::from_timespec` as (year, month, day, hour, minute, second).
+    pub fn utc_fields(unix_time: i64) -> Option<(i32, u8, u8, u8, u8, u8)> {
+        super::UtcDateTime::from_timespec(unix_time)
+            .ok()
+            .map(|u| (u.year, u.month, u.month_day, u.hour, u.minute, u.second))
+    }
+
+    pub fn rule_day_date(
+        kind: u8,
+        a: u16,
+        week: u8,
+        week_day: u8,
+        year: i32,
+    ) -> Option<(usize, i64)> {
+        rule_day(kind, a, week, week_day).map(|d| d.transition_date(year))
+    }
+
+    pub fn rule_day_unix_time(
+        kind: u8,
+        a: u16,
+        week: u8,
+        week_day: u8,
+        year: i32,
+        day_time_in_utc: i64,
+    ) -> Option<i64> {
+        rule_day(kind, a, week, week_day).map(|d| d.unix_time(year, day_time_in_utc))
+    }
+}
+
 #[cfg(test)]
 mod tests {
     use super::super::timezone::Transition;
